@@ -323,12 +323,15 @@ def check_main(engine_name, prop, tier, base_seed, cfg, nruns, workers,
     rc = 0
     reported = {}
     known_hit = {}
+    alternates = {}
     for r in viols:
         sig = r['violation']['signature']
         k = match_known(prop, sig, known)
         if k is not None:
             known_hit.setdefault(sig, (k, r))
             continue
+        if sig in reported:
+            alternates.setdefault(sig, []).append(r)
         reported.setdefault(sig, r)
     for sig, (k, r) in known_hit.items():
         print(f'KNOWN-FINDING: property={prop} {k.get("what", sig)} '
@@ -341,17 +344,32 @@ def check_main(engine_name, prop, tier, base_seed, cfg, nruns, workers,
                   f'{sig})')
             continue
         nrep += 1
-        hist = r['history']
-        viol = r['violation']
-        try:
-            small, sviol, nrep_runs = shrinkmod.minimise(
-                eng, prop, hist, viol, budget_s=cfg.get('shrink_budget', 120))
-        except Exception:
-            small, sviol, nrep_runs = hist, viol, 0
-            print('shrink failed:', traceback.format_exc())
-        tag = f'{base_seed}-{r["run"]}-{digest(sig, 6)}'
-        path = write_replay(prop, engine_name, small, sviol, tag)
-        ok, why = verify_replay_fresh(prop, path, sig)
+        # A violation that depends on what *earlier runs in the same worker
+        # process* left behind (state leaking between lenses through the
+        # library's module / class level) does not reproduce from its own
+        # history alone; other runs with the same signature are tried before
+        # the check gives up on a replayable witness.
+        ok, why = False, 'no candidate'
+        for cand in [r] + alternates.get(sig, [])[:6]:
+            hist = cand['history']
+            viol = cand['violation']
+            try:
+                small, sviol, nrep_runs = shrinkmod.minimise(
+                    eng, prop, hist, viol,
+                    budget_s=cfg.get('shrink_budget', 120))
+            except Exception:
+                small, sviol, nrep_runs = hist, viol, 0
+                print('shrink failed:', traceback.format_exc())
+            tag = f'{base_seed}-{cand["run"]}-{digest(sig, 6)}'
+            path = write_replay(prop, engine_name, small, sviol, tag)
+            ok, why = verify_replay_fresh(prop, path, sig)
+            if ok:
+                r = cand
+                break
+            try:
+                os.unlink(path)
+            except OSError:
+                pass
         if not ok:
             harness_broken.append((sig, why))
             print(f'HARNESS-ERROR: replay of {path} did not reproduce: {why}',
